@@ -1,6 +1,7 @@
 (* Property C16 — silent skip vs DDLParserError.  Statements only; proofs are in Proofs/. *)
 From Coq Require Import String List ZArith NArith PArith Bool.
-From SDP Require Import Base PyStr LR LRProofs.
+From SDP Require Import Base PyStr LR LRProofs Lexer Actions Parse.
+From SDP Require Seq SeqProofs Entity EntityProofs Table TableProofs TableItemProofs Alter AlterProofs AlterKeyProofs.
 Import ListNotations.
 
 (* For EVERY table set, token list (any length): if the loud parser (silent=False) does not raise,
@@ -42,3 +43,37 @@ Proof.
   - intros evs HS. eapply loud_raise_silent_error; eauto.
 Qed.
 Print Assumptions C16_loud_raises_only_ddlparsererror.
+
+(* ---------- "supported DDL never raises under silent=False" for the statement fragments under a theorem -----------------------------
+   For every statement of the CREATE SEQUENCE, TABLESPACE / DATABASE / SCHEMA, CREATE TABLE (with table-level clauses) and
+   ALTER TABLE fragments the loud run (silent=False) does not raise and returns exactly what the silent run returns. *)
+Theorem C16_sequence_loud_is_silent : forall a norm, Seq.wf a = true ->
+  parse_lexemes norm false (Seq.lexemes a) = parse_lexemes norm true (Seq.lexemes a) /\
+  parse_lexemes norm false (Seq.lexemes a) = Ok (Some (Seq.denote norm a)).
+Proof. intros a norm H. rewrite !(SeqProofs.seq_parse a norm _ H). split; reflexivity. Qed.
+Print Assumptions C16_sequence_loud_is_silent.
+Theorem C16_entity_loud_is_silent : forall e norm, Entity.wf e = true ->
+  parse_lexemes norm false (Entity.lexemes e) = parse_lexemes norm true (Entity.lexemes e) /\
+  parse_lexemes norm false (Entity.lexemes e) = Ok (Some (Entity.denote norm e)).
+Proof. intros e norm H. rewrite !(EntityProofs.entity_parse e norm _ H). split; reflexivity. Qed.
+Print Assumptions C16_entity_loud_is_silent.
+Theorem C16_table_loud_is_silent : forall t norm, Table.wf norm t = true ->
+  parse_lexemes norm false (Table.lexemes t) = parse_lexemes norm true (Table.lexemes t) /\
+  parse_lexemes norm false (Table.lexemes t) = Ok (Some (Table.denote norm t)).
+Proof. intros t norm H. rewrite !(TableProofs.table_parse t norm _ H). split; reflexivity. Qed.
+Print Assumptions C16_table_loud_is_silent.
+Theorem C16_table_clauses_loud_is_silent : forall tc norm i r, Table.tc_items tc = i :: r -> Table.wf_c norm tc = true ->
+  parse_lexemes norm false (Table.lexemes_c tc) = parse_lexemes norm true (Table.lexemes_c tc) /\
+  exists d, parse_lexemes norm false (Table.lexemes_c tc) = Ok (Some (PDict d)).
+Proof.
+  intros tc norm i r Hi H.
+  destruct (TableItemProofs.table_c_parse tc norm false i r Hi H) as [d [Hd H1]].
+  destruct (TableItemProofs.table_c_parse tc norm true i r Hi H) as [d' [Hd' H2]].
+  rewrite H1, H2. rewrite Hd in Hd'. inversion Hd'. subst d'. split; [reflexivity|]. exists d. reflexivity.
+Qed.
+Print Assumptions C16_table_clauses_loud_is_silent.
+Theorem C16_alter_loud_is_silent : forall a norm, Alter.wf norm a = true ->
+  parse_lexemes norm false (Alter.lexemes a) = parse_lexemes norm true (Alter.lexemes a) /\
+  parse_lexemes norm false (Alter.lexemes a) = Ok (Some (Alter.denote norm a)).
+Proof. intros a norm H. rewrite !(AlterKeyProofs.alter_parse a norm _ H). split; reflexivity. Qed.
+Print Assumptions C16_alter_loud_is_silent.
